@@ -410,6 +410,7 @@ GAP_CLASS = {"G1": "PlaceNotUsedError", "G2": "BorrowSubPlaceUsedError"}
 
 _CAP = {}
 _hooked = False
+_DECLS = None
 
 
 def _hook():
@@ -599,8 +600,12 @@ def run_real(src):
     import feed
     _hook()
     _CAP.clear()
+    global _DECLS
+    if _DECLS is None:
+        # structs and helper declarations are loaded once and imported by every generated program
+        _DECLS = feed.load(_decl_src(), name="_verif_c06_decls")
     try:
-        m = feed.load(src, prelude=feed.PRELUDE + _decl_src())
+        m = feed.load(src, prelude=feed.PRELUDE + "from _verif_c06_decls import *\n")
     except BaseException as e:  # noqa: BLE001
         return ("other", "load:" + type(e).__name__, None, str(e)[:200])
     try:
